@@ -52,6 +52,12 @@ def file_worker(kp, job):
             for c in row:
                 if c.kind == 'free':
                     c.text = 'a' + rng.choice(['\x0c', '\x0b', ' ', '\x85', '\x1c']) + 'b'
+    damaged = idx % 5 == 3 and not exotic
+    if damaged:
+        # a rejected cell or two: the file import reports the same errors as the string import (and raises alike on request)
+        cells_ = [c for row in g.rows() for c in row if c.kind in ('note', 'rest') and c.htype == '**kern']
+        for c in rng.sample(cells_, min(len(cells_), rng.randint(1, 2))):
+            c.text = rng.choice(['4q', '4zz', 'c4', '8', '4c%%z(', 'h'])
     text = g.text
     tmp = tempfile.mkdtemp(prefix='kvc20_')
     records = []
@@ -73,6 +79,22 @@ def file_worker(kp, job):
             b_ = 'ok:' + docs.impl_show_doc(kp, d2, e2)
         except Exception as e:
             d2, b_ = None, 'raise:' + type(e).__name__
+        if damaged:
+            def strict(fn, arg):
+                try:
+                    fn(arg, raise_on_errors=True)
+                    return 'returns'
+                except TypeError:
+                    return 'no-such-option'
+                except Exception as e_:
+                    return 'raises:' + type(e_).__name__
+            s1, s2 = strict(kp.load, path), strict(kp.loads, text)
+            if s1 != s2:
+                viol.append(('load-equals-loads', f'load(file, raise_on_errors=True) {s1}, loads(text, raise_on_errors=True) {s2}', w))
+            n1 = len(e1) if d1 is not None else None
+            n2 = len(e2) if d2 is not None else None
+            if n1 != n2:
+                viol.append(('load-equals-loads', f'load(file) reports {n1} errors, loads(text) reports {n2}', w))
         if a != b_:
             viol.append(('load-equals-loads', f'{tag}load(file) and loads(text) differ (line ends {g.nl!r}, final newline {g.final_nl})', w))
         records.append(engine.rec('load', impl=a, req=('import_file', [C1.join(bad), text]) if not exotic else None, viol=viol,
